@@ -293,6 +293,7 @@ func main() {
 	var mu sync.Mutex
 	var died []*violation
 	var notes []string
+	abandoned, abandonedUnexplained := 0, 0
 	hangConfirmed := false
 	var wg sync.WaitGroup
 	for sh := 0; sh < n; sh++ {
@@ -359,8 +360,26 @@ func main() {
 					}
 					mu.Unlock()
 					if v == nil && attempt >= 2 {
+						// the worker keeps dying but no single case does it alone:
+						// something that needs the accumulated work of a shard
+						// (a cache that fills up, a table that overflows).  If the
+						// dying goroutine was in library code that is a finding
+						// of its own; otherwise the machinery is in trouble.
 						mu.Lock()
 						notes = append(notes, fmt.Sprintf("shard %d abandoned after repeated unexplained worker failures", sh))
+						abandoned++
+						head := headline(stderr)
+						if strings.Contains(head, " in /") {
+							path := filepath.Join(replayDir, fmt.Sprintf("%s-died-shard-%d.json", prop, sh))
+							rf := map[string]interface{}{"property": prop, "class": prop + "/process-died", "signature": head + " [accumulated over a shard]", "base_seed": seed, "tier": *tier, "shard": sh, "of_shards": n,
+								"detail": "the worker process died three times while running its share of the cases, at different cases each time, and none of those cases dies when run alone: the death needs state that accumulates in the process", "stderr_tail": tail(stderr, 3000),
+								"note": "not a single-case replay: run the check again (same VERIF_SEED) to reproduce"}
+							b, _ := json.MarshalIndent(rf, "", " ")
+							os.WriteFile(path, b, 0o644)
+							died = append(died, &violation{Class: prop + "/process-died", Sig: head + " [accumulated over a shard]", Detail: rf["detail"].(string) + "\n" + tail(stderr, 800), Replay: path, CaseIndex: -1, Count: 1})
+						} else {
+							abandonedUnexplained++
+						}
 						mu.Unlock()
 						return
 					}
@@ -371,6 +390,7 @@ func main() {
 		}(sh)
 	}
 	wg.Wait()
+	_ = abandoned
 
 	// 4. merge
 	agg := &shardResult{Stats: &stats{Faults: map[string]int64{}, Probes: map[string]int64{}, Max: map[string]int64{}}, SelfTest: map[string]string{}}
@@ -535,6 +555,10 @@ func main() {
 		os.Exit(2)
 	}
 	if harnessTrouble > 0 {
+		os.Exit(2)
+	}
+	if abandonedUnexplained > 0 {
+		fmt.Fprintf(os.Stderr, "vcheck: %d shard(s) were abandoned after repeated unexplained worker failures: the result above is not complete\n", abandonedUnexplained)
 		os.Exit(2)
 	}
 }
